@@ -252,7 +252,7 @@ fn pick_op(r: &mut Rng, w: &Weights, m: &BehMix, src: bool) -> Op {
         }
         x -= wt;
     }
-    let sel = r.below(1 << 12) as u16;
+    let sel = if r.chance(1, 5) { 0x8000 + r.below(1 << 10) as u16 } else { r.below(1 << 12) as u16 };
     match k {
         0 => Op::Push {
             beh: gen_beh(r, m, src),
@@ -515,6 +515,7 @@ pub fn generate(workload: Workload, subject: SubjectKind, seed: u64) -> (Config,
             w.ready *= 2;
             w.poll_many *= 2;
             n_ops = r.range(40, 260) as usize;
+            let mut pushed = 0usize;
             if cfg.ctor == Ctor::New {
                 // default first group is 32 wide: start by filling past a boundary or two
                 let n = r.pick(&[30u64, 33, 40, 64, 97, 100, 130]) as usize;
@@ -524,6 +525,45 @@ pub fn generate(workload: Workload, subject: SubjectKind, seed: u64) -> (Config,
                         how: PushHow::Back,
                     });
                 }
+                pushed = n;
+            } else if r.chance(1, 2) {
+                let n = r.range(3, 20) as usize;
+                for _ in 0..n {
+                    trace.push(Op::Push {
+                        beh: gen_beh(r, &m, src),
+                        how: PushHow::Back,
+                    });
+                }
+                pushed = n;
+            }
+            if pushed > 0 && r.chance(2, 3) {
+                // finish a whole group (the oldest ones, or the newest ones) while others stay,
+                // polling now and then; afterwards wakes and a changed task waker
+                trace.push(Op::Poll { fresh: false });
+                let first_group = if cfg.ctor == Ctor::New { 32 } else { cfg.cap.max(1) };
+                let k = if r.chance(1, 2) { first_group.min(pushed) } else { r.range(1, pushed as u64) as usize };
+                let from_newest = r.chance(1, 3);
+                for i in 0..k {
+                    let sel = if from_newest { 0x8000 } else { 0 };
+                    if src {
+                        trace.push(Op::Close { sel, delay: r.chance(1, 6) });
+                    } else {
+                        trace.push(Op::Ready { sel, delay: r.chance(1, 6) });
+                    }
+                    if r.chance(1, 6) || i + 1 == k {
+                        trace.push(Op::PollMany { max: r.range(1, 40) as u16, fresh: r.chance(1, 4) });
+                    }
+                }
+                trace.push(Op::Poll { fresh: r.chance(1, 2) });
+                for _ in 0..r.range(1, 4) {
+                    let sel = r.below(64) as u16;
+                    if src {
+                        trace.push(Op::Feed { sel, n: 1, delay: false });
+                    } else {
+                        trace.push(Op::Wake { sel, how: WakeHow::ByRef, times: 1 });
+                    }
+                }
+                n_ops = r.range(5, 80) as usize;
             }
         }
         Workload::Starve => {
